@@ -34,7 +34,7 @@ use routee_compass::plugin::input::default::vertex_rtree::builder::VertexRTreeBu
 use routee_compass::plugin::input::default::vertex_rtree::plugin::{RTreeVertex, VertexRTree};
 use routee_compass::plugin::input::input_plugin::InputPlugin;
 use routee_compass::plugin::input::InputPluginError;
-use routee_compass_core::model::network::Vertex;
+use routee_compass_core::model::network::{Graph, Vertex};
 use routee_compass_core::model::unit::as_f64::AsF64;
 use routee_compass_core::model::unit::{Distance, DistanceUnit};
 use routee_compass_core::util::geo::haversine;
@@ -42,6 +42,9 @@ use rstar::PointDistance;
 use serde_json::{json, Map, Value};
 use std::collections::{BTreeMap, BTreeSet};
 use std::panic::{catch_unwind, AssertUnwindSafe};
+
+#[path = "c16_io.rs"]
+mod io;
 
 const D: [DistanceUnit; 5] = [
     DistanceUnit::Meters,
@@ -645,7 +648,7 @@ fn vertex_expect(scan: &VScan, tol: &Option<(f64, DistanceUnit)>) -> Expect {
     }
 }
 
-fn vertex_case(ctx: &mut Ctx, idx: usize, files: &Files, forced: Option<usize>) {
+fn vertex_case(ctx: &mut Ctx, idx: usize, files: &Files, forced: Option<usize>, scenario: u8) {
     let mut rng = Rng::for_case(ctx.seed, 16, idx as u64);
     let patch = gen_patch(&mut rng);
     // vertices
@@ -676,6 +679,35 @@ fn vertex_case(ctx: &mut Ctx, idx: usize, files: &Files, forced: Option<usize>) 
         let b = rng.below(n);
         pts[b] = pts[a];
     }
+    // scenarios where "nearest by Euclid in degrees" and "nearest on the globe" part ways, or where the network
+    // itself leaves the WGS84 range
+    match scenario {
+        1 => {
+            // both sides of the dateline
+            for p in pts.iter_mut() {
+                let x = 180.0 - rng.uniform(0.0, 0.3);
+                *p = ((if rng.chance(1, 2) { x } else { -x }) as f32, rng.uniform(-0.3, 0.3) as f32);
+            }
+            ctx.count("vertex_scenario_dateline");
+        }
+        2 => {
+            // around a pole: a degree of longitude is almost nothing there
+            let s = if rng.chance(1, 2) { 1.0 } else { -1.0 };
+            for p in pts.iter_mut() {
+                *p = (rng.uniform(-180.0, 180.0) as f32, (s * rng.uniform(89.0, 90.0)) as f32);
+            }
+            ctx.count("vertex_scenario_polar");
+        }
+        3 => {
+            // a network that sticks out of [-180,180] x [-90,90]
+            let high_lat = rng.chance(1, 3);
+            for p in pts.iter_mut() {
+                *p = if high_lat { (rng.uniform(-10.0, 10.0) as f32, rng.uniform(89.8, 90.2) as f32) } else { (rng.uniform(179.8, 180.2) as f32, rng.uniform(-0.2, 0.2) as f32) };
+            }
+            ctx.count("vertex_scenario_network_out_of_range");
+        }
+        _ => {}
+    }
     if forced == Some(0) {
         pts = vec![(0.0, 0.0), (1.0, 1.0), (2.0, 2.0)];
         ids = vec![0, 1, 2];
@@ -692,6 +724,9 @@ fn vertex_case(ctx: &mut Ctx, idx: usize, files: &Files, forced: Option<usize>) 
     let vfile = files.write("vertices.csv", &csv);
     let vertices: Vec<Vertex> = ids.iter().zip(pts.iter()).map(|(i, p)| Vertex::new(*i, p.0, p.1)).collect();
     let tree = VertexRTree::new(vertices.clone());
+    // the other constructor: the r-tree of a graph's vertices
+    let graph = Graph { adj: vec![].into_boxed_slice(), rev: vec![].into_boxed_slice(), edges: vec![].into_boxed_slice(), vertices: vertices.clone().into_boxed_slice() };
+    let gtree = VertexRTree::from_directed_graph(&graph);
 
     // query coordinates
     let (mut o, ob) = gen_query_coord(&mut rng, &patch, &pts);
@@ -705,12 +740,41 @@ fn vertex_case(ctx: &mut Ctx, idx: usize, files: &Files, forced: Option<usize>) 
         o = (0.0, 0.001);
         d = None;
     }
+    let mut ob = ob;
+    if scenario != 0 {
+        let mut pick = |rng: &mut Rng| -> (f64, f64) {
+            match scenario {
+                1 => {
+                    let x = 180.0 - rng.uniform(0.0, 0.05);
+                    (if rng.chance(1, 2) { x } else { -x }, rng.uniform(-0.3, 0.3))
+                }
+                2 => (rng.uniform(-180.0, 180.0), pts.first().map(|p| p.1.signum() as f64).unwrap_or(1.0) * rng.uniform(89.5, 90.0)),
+                _ => {
+                    if pts.first().map(|p| p.1 > 45.0).unwrap_or(false) {
+                        (rng.uniform(-10.0, 10.0), rng.uniform(89.7, 90.0))
+                    } else {
+                        (rng.uniform(179.7, 180.0), rng.uniform(-0.2, 0.2))
+                    }
+                }
+            }
+        };
+        o = pick(&mut rng);
+        ob = "q_scenario";
+        d = d.map(|_| (pick(&mut rng), "q_scenario"));
+    }
     ctx.count(&format!("vertex_origin_{}", ob));
     match &d {
         Some((_, b)) => ctx.count(&format!("vertex_destination_{}", b)),
         None => ctx.count("vertex_destination_absent"),
     }
     let spec = gen_query(&mut rng, o, d.map(|x| x.0), ["origin_vertex", "destination_vertex"], vec![], forced.is_some());
+    if let Some(c) = spec.origin {
+        let a = tree.nearest_vertex(to_f32(c)).map(|v| v.vertex_id.0);
+        let b = gtree.nearest_vertex(to_f32(c)).map(|v| v.vertex_id.0);
+        if a != b {
+            ctx.fail(idx, "vertex-rtree/from-directed-graph-differs", format!("nearest to {:?}: {:?} from the vertex list, {:?} from the graph", c, a, b));
+        }
+    }
     let oscan = spec.origin.map(|c| vertex_scan(ctx, idx, &vertices, &tree, to_f32(c)));
     let dscan = spec.destination.map(|c| vertex_scan(ctx, idx, &vertices, &tree, to_f32(c)));
 
@@ -803,6 +867,16 @@ fn vertex_case(ctx: &mut Ctx, idx: usize, files: &Files, forced: Option<usize>) 
             };
             if !good {
                 ctx.fail(idx, "vertex-match/not-nearest", format!("{} = {:?} is not a nearest vertex (min distance_2 {:?}); query {}", field, q.get(*field), scan.min_d2, before));
+            }
+            // not demanded by the property (nearest is "under the plugin's distance measure", Euclid in degrees), but
+            // worth knowing: is the match also the nearest vertex on the globe?
+            if let Some(id) = written {
+                let gmin = scan.cands.iter().filter_map(|c| c.2).fold(f64::INFINITY, f64::min);
+                if let Some(g) = scan.cands.iter().find(|c| c.0 as u64 == id).and_then(|c| c.2) {
+                    if g > gmin * 1.001 + 1.0 {
+                        ctx.count("vertex_match_is_not_the_great_circle_nearest");
+                    }
+                }
             }
             // the same with the oracle's OWN measure: squared Euclidean coordinate distance in f64 from the
             // coordinate as the plugin sees it (f32) to the vertex coordinates written to the file
@@ -945,9 +1019,16 @@ fn oracle_classes(q: &Value, mapping: &[(String, u8)]) -> Option<Option<BTreeSet
     strs.map(Some)
 }
 
-fn edge_case(ctx: &mut Ctx, idx: usize, files: &Files, forced: Option<usize>, bent: bool) {
+fn edge_case(ctx: &mut Ctx, idx: usize, files: &Files, forced: Option<usize>, scenario: u8) {
+    let bent = scenario == 1;
+    let truncated_lookup = scenario == 2;
     let mut rng = Rng::for_case(ctx.seed, 16, idx as u64);
-    let patch = gen_patch(&mut rng);
+    let mut patch = gen_patch(&mut rng);
+    if scenario == 3 {
+        // a network that sticks out of [-180,180] x [-90,90]: centroids the haversine refuses
+        patch = if rng.chance(1, 3) { Patch { x0: -5.0, y0: 89.9, w: 0.25, h: 0.25, dyadic: false } } else { Patch { x0: 179.9, y0: -0.1, w: 0.25, h: 0.25, dyadic: false } };
+        ctx.count("edge_scenario_network_out_of_range");
+    }
     let n = match forced {
         Some(_) => 1,
         None => match rng.below(10) {
@@ -998,7 +1079,7 @@ fn edge_case(ctx: &mut Ctx, idx: usize, files: &Files, forced: Option<usize>, be
     let gfile = files.write("geometries.txt", &wkt);
 
     // road classes
-    let with_classes = forced.is_none() && !bent && rng.chance(3, 5);
+    let with_classes = forced.is_none() && !bent && (rng.chance(3, 5) || truncated_lookup);
     let n_classes = 1 + rng.below(4);
     let classes: Vec<u8> = (0..n).map(|_| rng.below(n_classes) as u8 + if rng.chance(1, 10) { 252 } else { 0 }).collect();
     let cfile = if with_classes { Some(files.write("road_classes.txt", &classes.iter().map(|c| format!("{}\n", c)).collect::<String>())) } else { None };
@@ -1086,7 +1167,21 @@ fn edge_case(ctx: &mut Ctx, idx: usize, files: &Files, forced: Option<usize>, be
     let mk = |tol: &Option<(f64, DistanceUnit)>| {
         EdgeRtreeInputPlugin::new(cfile.clone(), rfile.clone(), gfile.clone(), tol.map(|t| Distance::new(t.0)), tol.map(|t| t.1), serde_json::from_value(parser_json.clone()).expect("parser"))
     };
-    let probe = match mk(&None) {
+    // the lookup shorter than the network: unreachable through `new` (it compares the lengths) but the fields are
+    // public; this is the "road class file missing edge" arm of `search`
+    let keep_classes = if truncated_lookup && n > 0 { rng.below(n) } else { n };
+    let truncate = |mut p: EdgeRtreeInputPlugin| {
+        if truncated_lookup {
+            if let Some(l) = p.road_class_lookup.as_mut() {
+                l.truncate(keep_classes);
+            }
+        }
+        p
+    };
+    if truncated_lookup {
+        ctx.count("edge_scenario_truncated_road_class_lookup");
+    }
+    let probe = match mk(&None).map(truncate) {
         Ok(p) => p,
         Err(e) => {
             ctx.emit(idx, "e-build-failed".into(), "build-failed".into());
@@ -1172,10 +1267,16 @@ fn edge_case(ctx: &mut Ctx, idx: usize, files: &Files, forced: Option<usize>, be
     };
     let before = spec.query.clone();
     let mut q = spec.query.clone();
-    let r = catch_unwind(AssertUnwindSafe(|| plugin.process(&mut q))).map_err(|_| ());
+    let mut r = catch_unwind(AssertUnwindSafe(|| plugin.process(&mut q))).map_err(|_| ());
+    if truncated_lookup {
+        if let Ok(direct) = mk(&tol).map(truncate) {
+            q = spec.query.clone();
+            r = catch_unwind(AssertUnwindSafe(|| InputPlugin::process(&direct, &mut q))).map_err(|_| ());
+        }
+    }
     let out = outcome_line(&r, &q);
     // same configuration through the public constructor: must behave identically
-    if let Ok(direct) = mk(&tol) {
+    if let (false, Ok(direct)) = (truncated_lookup, mk(&tol)) {
         let mut q2 = spec.query.clone();
         let r2 = catch_unwind(AssertUnwindSafe(|| InputPlugin::process(&direct, &mut q2))).map_err(|_| ());
         if outcome_line(&r2, &q2) != out {
@@ -1211,6 +1312,10 @@ fn edge_case(ctx: &mut Ctx, idx: usize, files: &Files, forced: Option<usize>, be
         if ok {
             ctx.fail(idx, "edge-match/accepts-malformed", format!("malformed query accepted: {}", before));
         }
+        return;
+    }
+    if truncated_lookup {
+        // an inconsistent plugin: only the correspondence speaks here (and: a class that is not there admits nothing)
         return;
     }
     let mut expect_ok = true;
@@ -1387,25 +1492,44 @@ pub fn run(ctx: &mut Ctx) -> &'static str {
     let _quiet = QuietStderr::new();
     // corpus: the repository's own vertex test; witnesses of edge-match/tolerance-units
     if let Some(idx) = ctx.begin() {
-        vertex_case(ctx, idx, &files, Some(0));
+        vertex_case(ctx, idx, &files, Some(0), 0);
     }
     for k in 0..3 {
         if let Some(idx) = ctx.begin() {
-            edge_case(ctx, idx, &files, Some(k), false);
+            edge_case(ctx, idx, &files, Some(k), 0);
         }
     }
     if let Some(idx) = ctx.begin() {
-        vertex_case(ctx, idx, &files, Some(1));
+        vertex_case(ctx, idx, &files, Some(1), 0);
     }
     let n = ctx.n(4000, 80000);
     for i in 0..n {
         let Some(idx) = ctx.begin() else { continue };
         if i % 2 == 0 {
-            vertex_case(ctx, idx, &files, None);
+            // every eighth vertex case is a dateline / polar / out-of-range-network scenario
+            vertex_case(ctx, idx, &files, None, if i % 16 == 14 { 1 + ((i / 16) % 3) as u8 } else { 0 });
         } else {
             // every fourth edge case is a bent-linestring scenario (centroid != bounding-box midpoint)
-            edge_case(ctx, idx, &files, None, i % 8 == 7);
+            // and every sixteenth a truncated road-class lookup or a network outside the WGS84 range
+            edge_case(ctx, idx, &files, None, if i % 8 == 7 { 1 } else if i % 16 == 3 { 2 + ((i / 16) % 2) as u8 } else { 0 });
         }
+    }
+    // the rest of the anchor files, function by function (see c16_io.rs)
+    for _ in 0..ctx.n(1500, 20000) {
+        let Some(idx) = ctx.begin() else { continue };
+        io::ext_case(ctx, idx);
+    }
+    for i in 0..ctx.n(600, 6000) {
+        let Some(idx) = ctx.begin() else { continue };
+        if i % 2 == 0 {
+            io::vertex_builder_case(ctx, idx, &files);
+        } else {
+            io::edge_builder_case(ctx, idx, &files);
+        }
+    }
+    for _ in 0..ctx.n(800, 10000) {
+        let Some(idx) = ctx.begin() else { continue };
+        io::haversine_case(ctx, idx);
     }
     "non-trivial: well-formed coordinate fields and at least two network elements; fingerprint = geometry set, tolerance, coordinates (and for edges the whole query and restriction table)"
 }
